@@ -110,6 +110,43 @@ def is_clock(t):
     return has_call(t, ('std::time::Instant::now', 'clock::Clock::now'))
 
 
+_FRESH_CTX = [None, None]     # (ctx, root function) of the lookup being judged
+
+
+def _field_type(ctx, b, t):
+    """Printed type of a pure field chain rooted in a parameter of `b` (references and smart pointers are looked through); None otherwise."""
+    if not isinstance(t, tuple) or not t:
+        return None
+    if t[0] == 'param':
+        return b.local_ty(t[1])['s'] if isinstance(t[1], int) and t[1] < len(b.locals) else None
+    if t[0] == 'fld':
+        bt = _field_type(ctx, b, t[1])
+        if bt is None:
+            return None
+        for an in ctx.prog.adts_in_type(bt):
+            for v_ in ctx.prog.adts[an]['variants']:
+                for f_ in v_['fields']:
+                    if f_['name'] == t[2]:
+                        return f_['ty']['s']
+        return None
+    return None
+
+
+def _is_shared_read(t):
+    """The watermark operand is read from the shared cell in this call (the `valid_after` it goes through is an atomic / locked cell of the cache),
+    not a copy kept by value in a handle or iterator.  Undecidable shapes count as shared."""
+    ctx, root = _FRESH_CTX
+    if ctx is None or root not in ctx.prog.bodies:
+        return True
+    b = ctx.prog.bodies[root]
+    verdicts = []
+    for x in subterms(t):
+        if isinstance(x, tuple) and x and x[0] == 'fld' and x[2] == 'valid_after':
+            ty = _field_type(ctx, b, x)
+            verdicts.append(True if ty is None else bool(ctx.eff.is_cell_type(ty)))
+    return all(verdicts) if verdicts else True
+
+
 def classify_literal(t, v):
     """Classify a canonical literal as a liveness fact about some entry.
     Returns dict(kind=..., ...) or None.
@@ -130,7 +167,7 @@ def classify_literal(t, v):
                 'state': 'not-expired' if v else 'expired', 'shape': 'deadline < now (exclusive: wrong boundary)'}
     if ts_kind(b) and (has_field(a, ('valid_after',))):
         return {'what': 'watermark', 'ts': ts_kind(b), 'entries': ts_entry(b), 'state': 'valid' if v else 'invalidated',
-                'shape': 'ts < valid_after'}
+                'shape': 'ts < valid_after', 'va_fresh': _is_shared_read(a), 'va': a}
     if ts_kind(a) and (has_field(b, ('valid_after',))):
         # le(ts, va): from `ts <= va` : non-strict watermark
         return {'what': 'watermark-nonstrict', 'ts': ts_kind(a), 'entries': ts_entry(a), 'state': 'invalidated' if v else 'valid',
@@ -235,6 +272,7 @@ def make_guard_rule(name, atoms, statement):
             if kind == 'sync' and not has_sync:
                 continue
             la = _lookup_analysis(ctx, nid, kind, rkind)
+            _FRESH_CTX[0], _FRESH_CTX[1] = ctx, nid
             nlook += 1
             hits = 0
             for row in la.rows:
@@ -276,6 +314,8 @@ def make_guard_rule(name, atoms, statement):
                                 why = 'comparison `%s`' % f['shape']; continue
                             if f['state'] != 'valid':
                                 continue
+                            if not f.get('va_fresh'):
+                                why = 'the watermark (%s) is a copy taken earlier, not a read of the shared valid_after in this call: an invalidate_all issued in between is missed' % fmt(f['va']); continue
                             if not _same_entry(f['entries'], ret_entry, lookups):
                                 why = 'watermark checked on a different entry than the one returned'; continue
                             ok, why = True, '%s == %s' % (fmt(t), v)
@@ -288,7 +328,10 @@ def make_guard_rule(name, atoms, statement):
                             if a == 'tti' and has_field(n, ('time_to_idle',)) and not has_call(n, ('checked_add',)):
                                 ok, why = True, 'time_to_idle is None on this path'
                             if a.startswith('va') and has_field(n, ('valid_after',)):
-                                ok, why = True, 'valid_after is None on this path'
+                                if _is_shared_read(n):
+                                    ok, why = True, 'valid_after is None on this path'
+                                else:
+                                    why = 'the watermark (%s) is a copy taken earlier, not a read of the shared valid_after in this call: an invalidate_all issued in between is missed' % fmt(n)
                             if kind == 'unsync' and a in ('ttl', 'tti') and _is_no_expiry_fact(n):
                                 ok, why = True, 'no expiry configured (timestamp == None <=> ttl and tti are None)'
                             ks = ts_kind(n)
